@@ -12,7 +12,7 @@ def c07Flow (nd : Nat) (m : Meta) : Nat := m.src * nd + m.dst
 def parseC07Op (nd : Nat) (s : String) : Option Op :=
   match s.splitOn "." with
   | ["d", f, l] => do some (.dg (c07Meta nd (← f.toNat?)) (max (← l.toNat?) 3))
-  | ["r", f, l] => do some (.reply (c07Meta nd (← f.toNat?)) (max (← l.toNat?) 3))
+  | ["r", f, l] => do some (.reply (c07Meta nd (← f.toNat?)) (← l.toNat?))
   | ["a", ms] => do some (.adv (← ms.toNat?))
   | ["c"] => some .close
   | _ => none
